@@ -49,6 +49,7 @@ TABLE: List[Entry] = [
     ("R-STATS-SLOT", None, None, {"C11", "C17"}),
     ("R-MARKER", None, "solution-forwarded", {"C01", "C02", "C11"}),
     ("R-MARKER", None, "completion-flags-fresh", {"C11", "C18"}),
+    ("R-MARKER", None, "marker-on-error-path", {"C11", "C19"}),
     ("R-MARKER", None, None, {"C11"}),
     ("R-KEEPBEST", None, None, {"C03", "C11"}),
     ("R-STATS-MAP", "BacktrackSolver", None, {"C17"}),
